@@ -11,6 +11,7 @@ Type names are `x<hex of UTF-8>` tokens.
   lex.d <type> <maxdigits> <value>                                 ↦ 1 | 0        (the `deviation` predicate)
   lex.s <dtype> <tag16:0|1> <value>                                ↦ 1 | 0        (the SPEC recogniser)
   lex.n <type> <maxdigits> <value>                                 ↦ <narrow marks,>
+  lex.ml <value> [<enumerator> …]                                  ↦ 1 | 0        (SPEC: list of enumeration members)
   lex.int <maxdigits> <value>                                      ↦ none | <int>
   lex.float <value>                                                ↦ valueError | nonFinite | finite
   lex.strp <ymd|ym|hms|hmsf|ts|tsf> <value>                        ↦ ok y m d H M S f | noMatch | unconverted | badDate | badTime
@@ -86,7 +87,7 @@ def handle (st : St) (cmd : String) (args : List String) : St × String :=
   | "v", ty :: t16 :: md :: v :: enums =>
     match Driver.tokStr ty, tokBool t16, md.toNat?, tokVal v, allSome (enums.map tokCps) with
     | some ty, some t16, some md, some v, some es =>
-      resStr (validateValue { maxStrDigits := md } { tag16 := t16, ftype := classify ty, values := es } v)
+      resStr (validateValue { maxStrDigits := md } { tag16 := t16, ftype := classify ty, multi := isMultiName ty, values := es } v)
     | _, _, _, _, _ => "bad-op"
   | "d", [ty, md, v] =>
     match Driver.tokStr ty, md.toNat?, tokCps v with
@@ -101,6 +102,10 @@ def handle (st : St) (cmd : String) (args : List String) : St × String :=
     | some ty, some md, some s =>
       "n=" ++ ",".intercalate (LexClass.narrowMarks { maxStrDigits := md } (classify ty) s)
     | _, _, _ => "bad-op"
+  | "ml", v :: enums =>
+    match tokCps v, allSome (enums.map tokCps) with
+    | some s, some es => b01 (LexSpec.isMemberList es s)
+    | _, _ => "bad-op"
   | "int", [md, v] =>
     match md.toNat?, tokCps v with
     | some md, some s => match pyInt md s with
